@@ -369,6 +369,13 @@ def daggered_gate_family():
         out.append({"ty": [], "layers": [{"g": _mg("Ket", bits=[0, 1]), "off": 0}, {"g": _mg("H"), "off": 0}, {"g": _mg("CX"), "off": 0},
                                           {"g": _mg(k, dg=1), "off": 1}, {"g": _mg("CX"), "off": 0}, {"g": _mg(k), "off": 0},
                                           {"g": _mg("H"), "off": 0}, M, dict(M, off=1)]})
+    # controlled gates whose target carries the dagger flag (tket: CSdg; CY and CH are their own adjoints): the control in
+    # superposition, the target on |1>, the phase kicked back onto the control undone by S (or not) and read out
+    for sub, sd in (("S", 1), ("S", 0), ("Y", 1), ("Y", 0), ("H", 1)):
+        for undo in (("S",), ("S", "S", "S"), ()):
+            layers = [{"g": _mg("Ket", bits=[0, 1]), "off": 0}, {"g": _mg("H"), "off": 0}, {"g": _mg("Ctrl", sub=sub, subdg=sd), "off": 0}]
+            layers += [{"g": _mg(u), "off": 0} for u in undo] + [{"g": _mg("H"), "off": 0}, M, dict(M, off=1)]
+            out.append({"ty": [], "layers": layers})
     return out
 
 
